@@ -670,6 +670,27 @@ fn dense_text_strategy(with_tiny: bool) -> impl Strategy<Value = BufCase> {
     })
 }
 
+/// IS_BTN frames in the type-in caption shape (text = NUL caption NUL text) whose caption and text are short runs over carets,
+/// NULs, codepage letters and a high byte; followed by a valid TINY
+fn btn_caption_strategy() -> impl Strategy<Value = BufCase> {
+    let sym = prop::sample::select(vec![b'^', 0u8, b'K', b'J', b'L', b'8', 0xE9, b'a', 0x94]);
+    (any::<bool>(), any::<[u8; 8]>(), proptest::collection::vec(sym.clone(), 0..5), proptest::collection::vec(sym, 0..6)).prop_map(|(compressed, hdr, caption, text)| {
+        let mut body = hdr.to_vec();
+        body.push(0);
+        body.extend_from_slice(&caption);
+        body.push(0);
+        body.extend_from_slice(&text);
+        while (4 + body.len()) % 4 != 0 {
+            body.push(0);
+        }
+        let len = 4 + body.len();
+        let mut buf = vec![if compressed { (len / 4) as u8 } else { len as u8 }, 45, 1, 0];
+        buf.extend_from_slice(&body);
+        buf.extend_from_slice(&[if compressed { 1 } else { 4 }, 3, 9, 3]);
+        BufCase { compressed, buf }
+    })
+}
+
 pub fn run(run: &mut Run) {
     if let Some(p) = coverage_problem() {
         eprintln!("HARNESS OUT OF DATE: {p}");
@@ -728,6 +749,8 @@ pub fn run(run: &mut Run) {
     let strat = dense_text_strategy(true);
     let n = run.budget(100_000, 5_000_000);
     run.prop(&Mutations, strat, n);
+    let n = run.budget(40_000, 2_000_000);
+    run.prop(&Mutations, btn_caption_strategy(), n);
     // (f) receive loop over concatenations of mutated frames and random tails
     let piece = (any::<u8>(), mutation_strategy(), dense_text_strategy(false)).prop_map(|(k, a, b)| if k % 5 < 3 { a } else { b });
     let strat = (any::<bool>(), proptest::collection::vec(piece, 1..8), proptest::collection::vec(any::<u8>(), 0..40)).prop_map(|(flip, parts, tail)| {
